@@ -37,6 +37,72 @@ func jcsCall(p []byte) (reply []byte) {
 	}()
 	var out []byte
 	var err error
+	if p[0] == 'C' {
+		// concurrent callers: every document of the JSON array is canonicalized through the value path and the byte path by
+		// several goroutines at once; each result must equal the result of the same call made alone
+		var docs []json.RawMessage
+		if e := json.Unmarshal(p[1:], &docs); e != nil {
+			return []byte("SKIP:" + e.Error())
+		}
+		type one struct {
+			raw  []byte
+			val  interface{}
+			want string
+		}
+		var set []one
+		for _, d := range docs {
+			var v interface{}
+			if json.Unmarshal(d, &v) != nil {
+				continue
+			}
+			w, e := canonicalizer.MarshalCanonical([]byte(d))
+			if e != nil {
+				continue
+			}
+			set = append(set, one{[]byte(d), v, string(w)})
+		}
+		var wg sync.WaitGroup
+		var mu sync.Mutex
+		problem := ""
+		for g := 0; g < 8; g++ {
+			wg.Add(1)
+			go func(g int) {
+				defer wg.Done()
+				defer func() {
+					if r := recover(); r != nil {
+						mu.Lock()
+						problem = fmt.Sprintf("panic in a concurrent caller: %v", r)
+						mu.Unlock()
+					}
+				}()
+				for round := 0; round < 6; round++ {
+					for i := range set {
+						o := set[(i+g*7+round)%len(set)]
+						var got []byte
+						var e error
+						if (i+g)%2 == 0 {
+							got, e = canonicalizer.MarshalCanonical(o.val)
+						} else {
+							got, e = canonicalizer.MarshalCanonical(o.raw)
+						}
+						if e != nil || string(got) != o.want {
+							mu.Lock()
+							if problem == "" {
+								problem = fmt.Sprintf("a concurrent caller got %q (err=%v) for a document whose canonical form is %q", trunc600(string(got)), e, trunc600(o.want))
+							}
+							mu.Unlock()
+							return
+						}
+					}
+				}
+			}(g)
+		}
+		wg.Wait()
+		if problem != "" {
+			return []byte("ERR:" + problem)
+		}
+		return []byte(fmt.Sprintf("OK:%d", len(set)))
+	}
 	if p[0] == 'S' {
 		var v interface{}
 		if e := json.Unmarshal(p[1:], &v); e != nil {
@@ -73,7 +139,7 @@ func treesEqual(a, b interface{}) bool {
 }
 
 func checkC07(c *hx.Ctx) {
-	c.Rule("value trees: exhaustive over all ordered pairs and a third of triples of 30 tricky keys (UTF-16 vs code-point order, controls, escapes), all scalars (30 strings, 30 boundary numbers, literals) in arrays and objects, nested to depth 2, plus random deeper trees; each tree in 6 re-serializations (member order, whitespace, \\u escapes both hex cases, surrogate pairs, \\/, number spellings) through MarshalCanonical([]byte) and, for the value path, MarshalCanonical(value); oracle: output == independent RFC 8785 serialization of the tree (Go reference; Python reference cross-checks every accepted document and every number), fixed point, parses back to the same value; doubles by random bit pattern; rejection classes (duplicate names incl. escaped spelling, truncation at every byte, invalid escapes, lone surrogates in all shapes, raw control characters, trailing content after top-level objects and after top-level arrays) must return an error; after every call (accepted or rejected) the same process canonicalizes a fixed probe document, which must come out unchanged (no state leaking between calls); executed in crash-isolated workers; non-trivial = tree with >=2 members or a non-integer number; distinct = distinct input byte strings")
+	c.Rule("value trees: exhaustive over all ordered pairs and a third of triples of 30 tricky keys (UTF-16 vs code-point order, controls, escapes), all scalars (30 strings, 30 boundary numbers, literals) in arrays and objects, nested to depth 2, plus random deeper trees; each tree in 6 re-serializations (member order, whitespace, \\u escapes both hex cases, surrogate pairs, \\/, number spellings) through MarshalCanonical([]byte) and, for the value path, MarshalCanonical(value); oracle: output == independent RFC 8785 serialization of the tree (Go reference; Python reference cross-checks every accepted document and every number), fixed point, parses back to the same value; doubles by random bit pattern; rejection classes (duplicate names incl. escaped spelling, truncation at every byte, invalid escapes, lone surrogates in all shapes, raw control characters, trailing content after top-level objects and after top-level arrays) must return an error; after every call (accepted or rejected) the same process canonicalizes a fixed probe document, which must come out unchanged (no state leaking between calls); eight goroutines canonicalize hundreds of documents (value path and byte path) at once, each result compared with the call made alone, under the race detector; executed in crash-isolated workers; non-trivial = tree with >=2 members or a non-integer number; distinct = distinct input byte strings")
 	c.Assume("references: harness/ref/jcs.go (Go, strconv shortest digits) and pyref/jcs_ref.py (Python repr digits); invalid UTF-8 and lenient number spellings are out of the statement's scope")
 	pool := hx.NewPool(c, "jcs", 16, 4*1024*1024, 30*time.Second)
 	defer pool.Close()
@@ -410,6 +476,39 @@ func checkC07(c *hx.Ctx) {
 		c.Count("rejected:" + class)
 		c.Distinct(in)
 	}
+	// ---- concurrent callers in one process (shared buffers / pools must not mix the callers' data)
+	{
+		var docs []json.RawMessage
+		for k, j := range jobs {
+			if k%(1+len(jobs)/300) == 0 {
+				if sj, err := ref.JCS(j.tree); err == nil && len(sj) > 2 {
+					docs = append(docs, json.RawMessage(sj))
+				}
+			}
+		}
+		big := map[string]interface{}{}
+		for k := 0; k < 1500; k++ {
+			big[fmt.Sprintf("member-%04d", (k*7919)%1500)] = []interface{}{float64(k), fmt.Sprintf("v%d", k), map[string]interface{}{"z": nil, "a": true}}
+		}
+		for k := 0; k < 4; k++ {
+			big["variant"] = float64(k)
+			docs = append(docs, json.RawMessage(ref.MustJCS(big)))
+		}
+		for round := 0; round < c.N(3, 40); round++ {
+			c.Eval()
+			b, _ := json.Marshal(docs)
+			st, out, ok := call('C', b)
+			if !ok {
+				return
+			}
+			if st != "OK" {
+				c.Violation("C07 concurrent callers: "+string(out), map[string]interface{}{"documents": len(docs)})
+				return
+			}
+			c.Count("concurrent_rounds")
+		}
+		c.Set("concurrent_documents_per_round", len(docs))
+	}
 	rj := c.Rng("reject")
 	for _, k := range c07Strings {
 		kk := escapeString(nil2(rj), k, false)
@@ -525,6 +624,7 @@ func checkC07(c *hx.Ctx) {
 		c.Floor("rejected:"+cl, 50)
 	}
 	c.Floor("trees:key-pair", 800)
+	c.Floor("concurrent_rounds", 3)
 	c.Floor("number_layout:exponent", 1000)
 	c.Floor("number_layout:fraction", 100)
 	c.Floor("number_layout:integer", 100)
